@@ -743,7 +743,7 @@ static int ec_put(char *loc, char *cmd, char *arg, char *txt)
 	char *buf;
 	int n = lbuf_len(xb);
 	buf = reg_get(REG(arg), &lnmode);
-	if (!buf || ex_region(loc, &beg, &end))
+	if (!buf || (ex_region(loc, &beg, &end) && (beg != 0 || end != 0)))
 		return 1;
 	lbuf_edit(xb, buf, end, end);
 	xrow = MIN(lbuf_len(xb) - 1, end + lbuf_len(xb) - n - 1);
